@@ -34,6 +34,10 @@ META = {
     "(Props/C08NonFinite.lean over Model/C20NonFinite.lean): a region with a non-finite coordinate is never turned into a "
     "GeoBox (AssertionError / ValueError / OverflowError as the code raises them), on finite arguments the extended model is "
     "C08's own branch; an infinite resolution with a floating anchor yields a 1x1 box (as found, replayed).  "
+    "Third increment: the shape-driven branches on non-finite values (snapped: always rejected; floating / tight: NOTHING is "
+    "checked and a GeoBox with nan / inf in its transform comes back -- pinned as found; single number: rejected), non-finite "
+    "anchor fractions (AssertionError); round trips with C02: from_bbox(..., resolution=r).zoom_to(resolution=r) is the same "
+    "geobox, .pad(k) grows the covered region by k pixels per side (theorems + oracles on the real objects).  "
     "Model and /repo are compared exactly on every run (quotient-constructed dyadic operands, exhaustive at the "
     "tolerance edges, spans from sub-pixel to 2^20 pixels; every argument spelling incl. rejected ones with the "
     "projection substituted at the public to_crs methods; accessors .alignment/.boundingbox of the real object against "
@@ -48,7 +52,7 @@ META = {
     "projection (pyproj) behind crs='utm*' and from_geopolygon(crs=other) -- parameter of the model, exact correspondence with a "
     "substituted affine projection, real pyproj by the independent-projection oracle; the UTM zone choice (C11); densification "
     "options of to_crs; float() coercions of numpy scalars / 0-d arrays in bbox, anchor and tol (oracle only: "
-    "result-depends-on-numeric-spelling); non-finite values in the shape-driven branches and in anchors (the resolution branch is modelled); a str given as shape is iterated digit by digit (driven as the sequence it amounts to); CRS "
+    "result-depends-on-numeric-spelling); C08 o C07 (from_geopolygon(crs=) through C07's to_crs model instead of a projection parameter) is not composed; a str given as shape is iterated digit by digit (driven as the sequence it amounts to); CRS "
     "objects whose truth value is False; zoom_out / zoom_to(shape) live in Model/C02 (zoom_to(resolution=) is linked to "
     "C08.fromBbox by theorem zoom_to_resolution_is_from_bbox).",
     "technique": "Lean 4 proof over hand model + exhaustive/random differential correspondence with real code",
@@ -224,6 +228,22 @@ def accessor_oracle(R: Run, gb, bb, rxy, snap, tol: F, slack_rel: F, case, prefi
     R.oracle(ok, f"{prefix}-boundingbox-accessor", case,
              f".boundingbox = {tuple(B.bbox)} for region {tuple(map(float, bb))}, pixel ({float(rx)!r},{float(ry)!r}), tol {float(tol)!r}",
              sig="accessor-boundingbox")
+    if rx != 0 and ry != 0 and R.rng.random() < 0.1:
+        # round trips (Props/C08C02.lean): re-gridding at the own resolution gives the same geobox back; padding by k pixels
+        # moves every edge of the bounding box outwards by k pixels
+        try:
+            z = gb.zoom_to(resolution=rs)
+            R.oracle(tuple(z.shape) == tuple(gb.shape) and tuple(z.affine)[:6] == tuple(gb.affine)[:6], f"{prefix}-zoom-to-own-resolution-changes-geobox", case,
+                     f"zoom_to(resolution={rs}) of {gb_s(gb)} gives {gb_s(z)}", sig="roundtrip-zoom")
+            k = R.rng.randint(0, 5)
+            Bp = gb.pad(k).boundingbox
+            okp = (F(Bp.left) <= Bl - k * ax + ex_ * (k + 2) and F(Bp.right) >= Br + k * ax - ex_ * (k + 2)
+                   and F(Bp.bottom) <= Bb - k * ay + ey_ * (k + 2) and F(Bp.top) >= Bt + k * ay - ey_ * (k + 2)
+                   and tuple(gb.pad(k).shape) == (gb.shape[0] + 2 * k, gb.shape[1] + 2 * k))
+            R.oracle(okp, f"{prefix}-pad-does-not-grow-by-k-pixels", case,
+                     f"pad({k}).boundingbox = {tuple(Bp.bbox)} vs boundingbox {tuple(B.bbox)}, pixel ({float(rx)},{float(ry)})", sig="roundtrip-pad")
+        except Exception as ex:  # pylint: disable=broad-except
+            R.oracle(False, f"{prefix}-accessor-raises", case, repr(ex), sig="roundtrip")
     if al is not None:
         def circ(a, want, m, e):
             d = (F(a) - want) % m
@@ -682,6 +702,41 @@ def sec_nonfinite(R: Run):
         if not all(math.isfinite(v) for v in (l, b, r, t)):
             R.oracle(o.startswith("ERR:"), "from-bbox-accepts-nonfinite-region", {"fn": "GeoBox.from_bbox", "line": line},
                      f"from_bbox(({l!r},{b!r},{r!r},{t!r}), resolution=({rx!r},{ry!r}), tol={tol!r}) returned {o}", sig="bboxresx-reject")
+    # shape-driven branches (ny, nx) and single number, non-finite region / anchor fractions / tol / number
+    asn = [None, (0.0, 0.0), (0.5, 0.5), (0.25, 0.75), (float("nan"), 0.5), (0.5, float("inf")), (float("-inf"), 0.0)]
+    combos = []
+    for l in fin[:2] + NONFIN:
+        for b in fin[:2] + NONFIN:
+            for r in fin[1:3] + NONFIN:
+                for t in fin[1:3] + NONFIN:
+                    for sn in asn:
+                        for tol in [0.01, float("nan"), float("inf")]:
+                            if not all(math.isfinite(v) for v in (l, b, r, t, tol) + (sn or ())):
+                                combos.append((l, b, r, t, sn, tol))
+    if R.quick:
+        combos = rng.sample(combos, 1500)
+    for (l, b, r, t, sn, tol) in combos:
+        anchor = GB.AnchorEnum.FLOATING if sn is None else xy_(sn[0], sn[1])
+        sn_tok = "N" if sn is None else xf_s(sn[0]) + ";" + xf_s(sn[1])
+        ny, nx = rng.choice([(2, 4), (1, 1), (4, 2), (-2, 4), (0, 3)])
+        q = rng.choice([4.0, 2.0, 0.5, float("nan"), float("inf"), 0.0, -2.0])
+
+        def gs(g):
+            A = g.affine
+            return f"{g.shape[0]} {g.shape[1]} {xf_s(A.a)} {xf_s(A.e)} {xf_s(A.c)} {xf_s(A.f)}"
+
+        line = f"c08 bboxshapex {xf_s(l)} {xf_s(b)} {xf_s(r)} {xf_s(t)} {ny} {nx} {sn_tok} {xf_s(tol)}"
+        o = R.corr(line, lambda: gs(GeoBox.from_bbox((l, b, r, t), CRS, shape=(ny, nx), anchor=anchor, tol=tol)),
+                   sig=f"bboxshapex|{'float' if sn is None else 'snap'}")
+        if sn is not None and not all(math.isfinite(v) for v in (l, b, r, t)):
+            R.oracle(o.startswith("ERR:"), "from-bbox-accepts-nonfinite-region", {"fn": "GeoBox.from_bbox", "line": line},
+                     f"from_bbox(({l!r},{b!r},{r!r},{t!r}), shape=({ny},{nx}), anchor={anchor}) returned {o}", sig="bboxshapex-reject")
+        line = f"c08 bboxnumx {xf_s(l)} {xf_s(b)} {xf_s(r)} {xf_s(t)} {xf_s(q)} {sn_tok} {xf_s(tol)}"
+        o = R.corr(line, lambda: gs(GeoBox.from_bbox((l, b, r, t), CRS, shape=q, anchor=anchor, tol=tol)),
+                   sig=f"bboxnumx|{'float' if sn is None else 'snap'}")
+        if not all(math.isfinite(v) for v in (l, b, r, t)):
+            R.oracle(o.startswith("ERR:"), "from-bbox-accepts-nonfinite-region", {"fn": "GeoBox.from_bbox", "line": line},
+                     f"from_bbox(({l!r},{b!r},{r!r},{t!r}), shape={q!r}, anchor={anchor}) returned {o}", sig="bboxnumx-reject")
 
 
 # ------------------------------------------------------------------ public argument forms (Model/C08Args.lean)
